@@ -109,7 +109,7 @@ pub struct Rule {
 
 impl Hash for Rule {
     fn hash<H: Hasher>(&self, state: &mut H) {
-        self.id.hash(state);
+        // must agree with `PartialEq`, which ignores the `id`
         self.resource.hash(state);
         self.ref_resource.hash(state);
     }
